@@ -53,7 +53,7 @@ RULE = ('case = (XSD version, content model). Models: the complete family with â
         'open content (interleave / suffix), '
         'seeded members of the same family with all of {1,?,*,+,{2,2},{1,2},{0,0}}, with a wildcard '
         'leaf, and with 3 leaves, '
-        'all pairs of leaves from {a, substitution head and members, 10 wildcard forms} in two-item sequences/choices, an Element-Declarations-Consistent family with local '
+        'all pairs of leaves from {a, substitution head and members, 10 wildcard forms} in two-item sequences/choices, edc-subst: {local element named like the head / member / member of the member of a substitution group whose members have other types than the head} x {its type = head\'s / member\'s / member-of-member\'s / another} x {before / after} x {reference to head / member / member of member} x {adjacent / separated / other choice branch} x {required / optional} (432 models per version, complete in both tiers), an Element-Declarations-Consistent family with local '
         'declarations and substitution-group members, seeded random larger models (depth â‰¤3, xs:all, substitution '
         'heads incl. a transitive member, local declarations, wildcards), the same with nested groups turned into '
         'references to named model groups, and models that reference one named group twice (shared particle objects). '
@@ -83,7 +83,7 @@ WIT_EXPECT: dict = {}
 # coverage of the cases of distinguishable_paths (lib_cm15.dp_key), measured on the recorded calls of the real code:
 # case -> number of explored models with a call in that case
 DP_MODELS: dict = {}
-FX: dict = {'shared': False, 'repSeq': False, 'head10': False, 'edc10': False}
+FX: dict = {'shared': False, 'repSeq': False, 'head10': False, 'edc10': False, 'edcLoop': False}
 FX_WITNESS = {
     # flag: (XSD 1.1?, model, build outcome (True = accepted) that shows the repair is in the tree)
     'shared': (False, ('g', 'sequence', 1, 1, [('g', 'sequence', 1, 1, [('e', 'a', 0, 1)], 'ref'),
@@ -91,6 +91,9 @@ FX_WITNESS = {
     'repSeq': (False, ('g', 'sequence', 1, 2, [('e', 'a', 1, 1), ('e', 'a', 0, 1)]), False),
     'head10': (False, ('g', 'choice', 1, 1, [('l', 'h', 1, 1, 'string'), ('e', 's', 1, 1)]), True),
     'edc10': (False, ('g', 'sequence', 1, 1, [('e', 'h', 1, 1), ('l', 's', 1, 1, 'int')]), False),
+    # finding C15-F4 (notes/fixes/C15-edc-loop-variable.patch): (hd, b, md) is consistent; refused while the loop
+    # variable of is_consistent leaks
+    'edcLoop': (True, ('g', 'sequence', 1, 1, [('e', 'hd', 1, 1), ('e', 'b', 1, 1), ('e', 'md', 1, 1)]), True),
 }
 
 
@@ -109,9 +112,23 @@ def detect_fixes() -> dict:
     return FX
 
 
+def merge_local_findings(ctx: Ctx) -> None:
+    """findings of notes/findings/C15.json that the committed known_findings.json does not list yet (the integrator
+    merges them): `ctx.known_hit` reads their status from `ctx.known`"""
+    f = VERIF / 'notes' / 'findings' / 'C15.json'
+    if not f.exists():
+        return
+    listed = {e.get('id') for e in ctx.known}
+    for e in json.loads(f.read_text()).get('findings', []):
+        if e.get('id') not in listed:
+            ctx.known.append(dict(e, _local=True))
+
+
 def variant() -> str:
     on = [k for k, v in FX.items() if v]
-    return 'pinned' if not on else ('patched' if len(on) == len(FX) else 'partial:' + '+'.join(on))
+    core = [k for k in on if k != 'edcLoop']       # the four repairs of C15-all-combined.patch name the variant
+    name = 'pinned' if not core else ('patched' if len(core) == len(FX) - 1 else 'partial:' + '+'.join(core))
+    return name + ('+edcLoop' if FX['edcLoop'] else '')
 
 
 def wit_expect(e: dict) -> dict:
@@ -130,14 +147,16 @@ def pinned() -> dict:
     Lean driver is unavailable): the pinned tree, the fully patched tree; a partially patched tree uses the union"""
     global _pinned
     if _pinned is None:
-        _pinned = {'1.0': set(), '1.1': set()}
+        _pinned = {'1.0': set(), '1.1': set(), 'C15-F4': {}}
         if PINNED_FILE.exists():
             data = json.loads(PINNED_FILE.read_text())
             pat = data.get('patched') or {}
             v = variant()
             for k in ('1.0', '1.1'):
                 a, b = set(data.get(k, [])), set(pat.get(k, []))
-                _pinned[k] = a if v == 'pinned' else (b if v == 'patched' else a | b)
+                _pinned[k] = a if v.startswith('pinned') else (b if v.startswith('patched') else a | b)
+            # finding C15-F4: EDC false alarms of the seed-independent families, only while the repair is absent
+            _pinned['C15-F4'] = {k: set((data.get('C15-F4') or {}).get(k, [])) for k in ('1.0', '1.1')}
     return _pinned
 
 
@@ -150,9 +169,15 @@ def known_match(case: Any, detail: Any) -> Optional[str]:
     if detail.get('port_ok') is not None:
         if detail['port_ok'] != detail.get('impl_ok'):
             return None
+        if (not FX['edcLoop'] and detail.get('impl_error') == 'edc' and detail.get('port') == 'edc'
+                and detail.get('edc') is True):
+            return 'C15-F4'       # is_consistent compares the type of the LAST substitute of self (leaked loop variable)
         if detail.get('shared') and detail.get('impl_ok') and not FX['shared']:
             return 'C15-F3'       # a particle object shared by two places of the model is never compared with itself
         return KNOWN_ID
+    if (not FX['edcLoop'] and detail.get('impl_error') == 'edc'
+            and case.get('model') in pinned().get('C15-F4', {}).get(case.get('v'), ())):
+        return 'C15-F4'
     return KNOWN_ID if case.get('model') in pinned().get(case.get('v'), ()) else None
 
 
@@ -310,7 +335,7 @@ def run_batch(ctx: Ctx, drv: Optional[Driver], models: list[tuple], v11: bool, f
         if not ans['tie'] or ans['edc_p'] != ans['edc']:
             ctx.mismatch('type table given to the specification does not cover the element data given to the port',
                          case, {'tie': ans['tie'], 'edc_by_object': ans['edc_p']}, {'edc_by_occurrence': ans['edc']})
-        if m['res'] == 'edc' and ans['edc_p']:
+        if m['res'] == 'edc' and ans['edc_p'] and (FX['edcLoop'] or (not v11 and not FX['edc10'])):
             ctx.mismatch('port raises an EDC error on a consistent model: contradicts checkModel_edc_error_sound', case,
                          {'port': m}, {'edc': ans['edc_p']})
         if fam == 'theorem-witnesses':
@@ -351,6 +376,7 @@ def families(ctx: Ctx, with_driver: bool = True):
     flat = c15.flat_choices()
     occ3 = [(1, 1), (0, 1), (0, None), (2, 2), (1, 2)]
     edc = c15.edc_models()
+    edcs = c15.edc_subst_models()
     wit = json.loads((VERIF / 'corpus' / 'C15' / 'theorem-witnesses.json').read_text())['models']
     for m in wit:
         for v, e in (m.get('expect') or {}).items():
@@ -371,6 +397,7 @@ def families(ctx: Ctx, with_driver: bool = True):
         wm = c15.wildcard_models(v11, tokens=with_driver)
         yield 'leaf-pairs', v11, (rng.sample(wm, min(len(wm), 600)) if ctx.quick() else wm)
         yield 'edc', v11, edc
+        yield 'edc-subst', v11, edcs
         if not with_driver:
             continue
         yield 'flat-seq-rep', v11, (rng.sample(fseqr, 600) if ctx.quick() else fseqr)
@@ -422,6 +449,7 @@ def run(ctx: Ctx, driver_ok: bool) -> None:
     import warnings
     warnings.simplefilter('ignore')        # XMLSchemaTypeTableWarning of the non-strict consistency clause
     drv = Driver('drv_c15') if driver_ok else None
+    merge_local_findings(ctx)
     detect_fixes()
     ctx.notes.append('algorithm variant of the tree under test: %s %s' % (variant(), json.dumps(FX)))
     ctx.count('variant:' + variant())
@@ -459,7 +487,7 @@ def search(ctx: Ctx) -> None:
     fresh = ('dp-shapes', 'exh2-core', 'flat-choice', 'flat-seq', 'leaf-pairs') if ctx.quick() else ('dp-shapes',)
     while not ctx.failures and time.time() < deadline:
         for fam, v11, models in families(ctx, drv is not None):
-            if drv is not None and fam in ('theorem-witnesses', 'edc') or (not ctx.quick() and drv is not None
+            if drv is not None and fam in ('theorem-witnesses', 'edc', 'edc-subst') or (not ctx.quick() and drv is not None
                                                                            and fam not in fresh and fam in SEED_INDEPENDENT):
                 continue        # already explored completely by run()
             for i in range(0, len(models), 50):
@@ -475,7 +503,7 @@ def search(ctx: Ctx) -> None:
             return              # the seed-independent families are the same on every pass
 
 
-SEED_INDEPENDENT = ('theorem-witnesses', 'exh2-core', 'flat-choice', 'flat-seq', 'leaf-pairs', 'edc', 'flat-seq-rep')
+SEED_INDEPENDENT = ('theorem-witnesses', 'exh2-core', 'flat-choice', 'flat-seq', 'leaf-pairs', 'edc', 'edc-subst', 'flat-seq-rep')
 
 
 def make_pinned() -> None:
@@ -501,9 +529,9 @@ def make_pinned() -> None:
     PINNED_FILE.parent.mkdir(parents=True, exist_ok=True)
     data = json.loads(PINNED_FILE.read_text()) if PINNED_FILE.exists() else {}
     rec = {k: sorted(set(v)) for k, v in out.items()}
-    if variant() == 'pinned':
+    if variant().startswith('pinned'):
         data.update(rec)
-    elif variant() == 'patched':
+    elif variant().startswith('patched'):
         data['patched'] = rec
     else:
         raise SystemExit('make_pinned: partially patched tree (%s): nothing recorded' % variant())
